@@ -7,8 +7,8 @@ CONSTANTS EmitCases, Shard, NShards
 Maps == {"m1", "m2", "nofile"}
 BaseKinds == {"absent", "other_cmd", "one", "two"}
 NamedKinds == {"absent", "other_cmd", "one", "two"}
-VARIABLES base1, base2, n11, n12, n21, n22, requested, args, nobase, resolve, customdirs, shareddir, twocmds
-vars == <<base1, base2, n11, n12, n21, n22, requested, args, nobase, resolve, customdirs, shareddir, twocmds>>
+VARIABLES base1, base2, n11, n12, n21, n22, requested, args, nobase, resolve, customdirs, shareddir, twocmds, deps
+vars == <<base1, base2, n11, n12, n21, n22, requested, args, nobase, resolve, customdirs, shareddir, twocmds, deps>>
 ReqSeqs == {<<>>} \cup { <<a>> : a \in Maps } \cup { <<a, b>> : a \in Maps, b \in Maps }
 Init == /\ base1 \in BaseKinds /\ base2 \in {"absent", "one"}
         /\ n11 \in NamedKinds /\ n12 \in {"absent", "one"}
@@ -22,6 +22,8 @@ Init == /\ base1 \in BaseKinds /\ base2 \in {"absent", "one"}
         /\ shareddir \in BOOLEAN /\ (shareddir => customdirs)
         /\ twocmds \in BOOLEAN
         /\ (args = "two" => ~twocmds)
+        \* the run names only the first target and --deps pulls the second one in (the first uses it)
+        /\ deps \in BOOLEAN /\ (deps => args = "none" /\ ~twocmds)
         \* keep the enumeration tractable: the second target only varies when the first is interesting
         /\ (base1 = "absent" => base2 = "absent")
         /\ (n11 = "absent" => n12 = "absent")
@@ -31,7 +33,7 @@ Weight == Len(requested) + (IF nobase THEN 1 ELSE 0) + (IF customdirs THEN 2 ELS
 Emit == (EmitCases /\ Weight % NShards = Shard) =>
   PrintT(<<"CASE", ToJson([base1 |-> base1, base2 |-> base2, n11 |-> n11, n12 |-> n12, n21 |-> n21, n22 |-> n22,
                            requested |-> requested, args |-> args, nobase |-> nobase, resolve |-> resolve,
-                           customdirs |-> customdirs, shareddir |-> shareddir, twocmds |-> twocmds])>>)
+                           customdirs |-> customdirs, shareddir |-> shareddir, twocmds |-> twocmds, deps |-> deps])>>)
 \* law: dropping the base argmap removes exactly a prefix
 BaseIsPrefix == \A b \in {<<>>, <<"x">>, <<"x", "y">>} :
                   LET full == Argv(b, {<<"m1", <<"p">>>>}, requested, <<"z">>, FALSE)
